@@ -138,6 +138,35 @@ EDITS = [
  ('cancel-all-tasks', 'C08', 'agent/executing/base.py',
   "                task = self.get_task(tid)\n                if task:\n                    self.cancel_task(task)",
   "                for task in list(self._tasks.values()):\n                    self.cancel_task(task)", 'control_cb'),
+ ('waitpool-cancel-break-dedent', 'C08', 'agent/scheduler/base.py',
+  "                                del self._waitpool[priority][uid]\n                                break\n",
+  "                                del self._waitpool[priority][uid]\n                            break\n", 'C0'),
+ ('waitpool-cancel-no-delete', 'C08', 'agent/scheduler/base.py',
+  "                                to_cancel.append(task)\n                                del self._waitpool[priority][uid]\n",
+  "                                to_cancel.append(task)\n", 'C0'),
+ ('waitpool-cancel-clears-pool', 'C08', 'agent/scheduler/base.py',
+  "                                del self._waitpool[priority][uid]\n                                break\n",
+  "                                self._waitpool[priority] = dict()\n                                break\n", 'C0'),
+ ('sched-intake-no-continue', 'C04', 'agent/scheduler/base.py',
+  "                        self._fail_task(task, ValueError('invalid ranks'), '')\n                        continue\n",
+  "                        self._fail_task(task, ValueError('invalid ranks'), '')\n", 'C0'),
+ ('sched-raptor-task-also-scheduled', 'C04', 'agent/scheduler/base.py',
+  "                            to_raptor[raptor_id].append(task)\n",
+  "                            to_raptor[raptor_id].append(task)\n                            to_schedule[priority].append(task)\n", 'C0'),
+ ('sched-waiters-not-pooled', 'C04', 'agent/scheduler/base.py',
+  "                self._waitpool[priority][uid] = task\n", "                self._waitpool[0][uid] = task\n", 'C0'),
+ ('sched-started-not-pushed', 'C04', 'agent/scheduler/base.py',
+  "                        self.advance(task, rps.AGENT_EXECUTING_PENDING,\n                                     publish=True, push=True, fwd=True)\n\n                    else:",
+  "                        self.advance(task, rps.AGENT_EXECUTING_PENDING,\n                                     publish=True, push=False, fwd=True)\n\n                    else:", 'C0'),
+ ('sched-refused-task-dropped', 'C04', 'agent/scheduler/base.py',
+  "                    else:\n                        to_wait.append(task)\n\n                except Exception as e:",
+  "                    else:\n                        pass\n\n                except Exception as e:", 'C0'),
+ ('sched-fail-when-one-active', 'C04', 'agent/scheduler/base.py',
+  "                if self._active_cnt == 0:\n                    raise RuntimeError('task can never be scheduled')",
+  "                if self._active_cnt <= 1:\n                    raise RuntimeError('task can never be scheduled')", '_try_allocation_exc-post'),
+ ('sched-late-cancel-keeps-in-pool', 'C08', 'agent/scheduler/base.py',
+  "                if self.is_canceled(task) is True:\n                    del self._waitpool[priority][uid]\n",
+  "                self.is_canceled(task)\n", 'C0'),
  ('master-exit-none-done', 'C05', 'raptor/master.py',
   "                if ret is None:\n                    ret = -1", "                if ret is None:\n                    ret = 0", '_result_cb'),
  ('agent-advance-pushes-failed', 'C05', 'utils/component.py',
